@@ -1086,6 +1086,8 @@ package tree
 //@   requires t != nil
 //@   call tree.newNNI [only_on_branches_whose_two_ends_have_three_neighbours] deg(a1) == 3 && deg(a2) == 3 && a1 == e.left && a2 == e.right && a0 == t
 //@   call tree.newNNI [the_plain_exchange_first_then_the_crossed_one] a3 == (ghost(ncalls_newNNI) - atHead(ghost(ncalls_newNNI)) == 1)
+//@   return@L0 [unless_the_callback_stops_it_the_enumeration_ends_only_after_the_loop_over_all_branches_of_this_tree] ghost(entered_L1) == old(ghost(entered_L1)) + 1 && ghost(ncalls_Edges) == old(ghost(ncalls_Edges)) + 1
+//@   call (*tree.Tree).Edges [the_branches_of_this_tree] a0 == t
 //@   loop 1
 //@     complete [all_iterations_no_early_exit]
 //@     step [two_moves_per_eligible_branch_none_otherwise_unless_stopped] (deg(e.left) == 3 && deg(e.right) == 3 ? ghost(fncalls_f) >= atHead(ghost(fncalls_f)) + 1 && ghost(fncalls_f) <= atHead(ghost(fncalls_f)) + 2 : ghost(fncalls_f) == atHead(ghost(fncalls_f)))
